@@ -3,6 +3,7 @@ package faults
 import (
 	"context"
 	"fmt"
+	"net"
 	"os"
 	"path/filepath"
 	"runtime"
@@ -36,9 +37,12 @@ const (
 	// request to plugin i+1 lies in gap i, its answer in gap i+1: while every gap stays below
 	// 0.4 x timeout no healthy plugin's round trip can have reached the timeout. (Large requests
 	// take a few ms per plugin on an idle machine and several tens of ms when 16 shards share it.)
-	gapMax    = ReqTimeout * 2 / 5
-	mainTag   = "main"
-	followTag = "follow"
+	gapMax = ReqTimeout * 2 / 5
+	// leaveGraceMs: a plugin that leaves sooner than this after answering may be taken for one
+	// that disconnected during the request (see the oracle)
+	leaveGraceMs = 5
+	mainTag      = "main"
+	followTag    = "follow"
 )
 
 type logEntry struct {
@@ -56,6 +60,7 @@ type plug struct {
 	proxy *Proxy
 	rep   Report
 	armed bool
+	wc    *watchConn // the plugin's own end of its connection (plugins that stop themselves)
 }
 
 func (pl *plug) idx2() string { return fmt.Sprintf("%02d", pl.spec.Idx) }
@@ -71,7 +76,9 @@ type fixture struct {
 	release chan struct{}
 	relOnce sync.Once
 	w       fx.ActiveWatcher
-	ldir    string // scratch directory of the launched plugins ("" if there are none)
+	ldir    string         // scratch directory of the launched plugins ("" if there are none)
+	upd     map[int]int    // unsolicited UpdateContainers calls the runtime has seen, by plugin
+	pressWG sync.WaitGroup // the plugins' pending UpdateContainers calls
 }
 
 func (f *fixture) releaseAll() { f.relOnce.Do(func() { close(f.release) }) }
@@ -129,6 +136,24 @@ func tagOf(pod *api.PodSandbox, ct *api.Container) string {
 // a handler-driven way during the main request.
 func (f *fixture) enter(pl *plug, kind, tag string) error {
 	f.record(pl, kind, tag)
+	if ft := pl.spec.Fault; ft.Then != "" && tag == mainTag {
+		// answers (with an error or normally) and leaves ThenMs after the answer is on the wire
+		d := time.Duration(ft.ThenMs) * time.Millisecond
+		switch ft.Then {
+		case "stop":
+			if pl.wc != nil {
+				pl.wc.Arm(func() {
+					go func() {
+						time.Sleep(d)
+						pl.p.Stub.Stop()
+					}()
+				})
+			}
+		case "peer":
+			pl.proxy.Arm(Plan{Kind: "leave", StallMs: ft.ThenMs})
+			pl.armed = true
+		}
+	}
 	if ft := pl.spec.Fault; ft.Kind == "error" && (tag == mainTag || (tag == followTag && ft.Again)) {
 		err, _ := handlerError(ft)
 		return err
@@ -636,13 +661,34 @@ func validate(c C07Case) string {
 		}
 		if p.Launched {
 			switch k := p.Fault.Kind; {
-			case k == "none" || k == "hang" || k == "exit" || k == "error":
+			case k == "none" || k == "hang" || k == "exit" || k == "error" || k == "leave":
 			case k == "close" && p.Fault.When == "during":
 			default:
 				return "fault not available for a launched plugin"
 			}
 		} else if p.Fault.Kind == "exit" {
 			return "only a launched plugin can exit"
+		}
+		if th := p.Fault.Then; th != "" {
+			if p.Fault.Kind != "error" && p.Fault.Kind != "leave" {
+				return "only a plugin that answers (error, leave) can leave afterwards"
+			}
+			if (p.Launched && th != "exit") || (!p.Launched && th != "stop" && th != "peer") {
+				return "unknown way of leaving"
+			}
+			if p.Fault.ThenMs < 0 || p.Fault.ThenMs > 250 {
+				return "leave delay outside 0..250 ms"
+			}
+		} else if p.Fault.Kind == "leave" {
+			return "a leaving plugin needs a way of leaving"
+		}
+		if p.Fault.PressCalls != 0 || p.Fault.PressKB != 0 {
+			if p.Launched || p.Fault.Kind != "cut" || p.Fault.Dir != "r2p" {
+				return "socket pressure goes with a peer that stops reading (cut r2p)"
+			}
+			if p.Fault.PressCalls < 0 || p.Fault.PressCalls > 16 || p.Fault.PressKB < 0 || p.Fault.PressKB > 1024 {
+				return "pressure outside 0..16 calls x 0..1024 KiB"
+			}
 		}
 		if p.Fault.StallMs < -1 || p.Fault.StallMs > 250 {
 			return "stall outside -1..250 ms"
@@ -734,6 +780,27 @@ func runOnce(c C07Case) (v verdict) {
 		return
 	}
 	f.rt, f.dir = rt, rt.Dir
+	f.upd = map[int]int{}
+	// unsolicited updates of the plugins ("pressure" prologue): everything fails, and the list of
+	// failed updates that travels back to the plugin has the size the caller named
+	rt.UpdateFn = func(_ context.Context, u []*api.ContainerUpdate) ([]*api.ContainerUpdate, error) {
+		var idx, kb int
+		if len(u) == 0 {
+			return nil, nil
+		}
+		if _, err := fmt.Sscanf(u[0].ContainerId, "press-%d-%d", &idx, &kb); err != nil {
+			return nil, nil
+		}
+		f.mu.Lock()
+		f.upd[idx]++
+		f.mu.Unlock()
+		if kb == 0 {
+			return nil, nil
+		}
+		failed := &api.ContainerUpdate{ContainerId: u[0].ContainerId}
+		failed.AddLinuxUnified("c07.failed", bigAnnotation(kb<<10))
+		return []*api.ContainerUpdate{failed}, nil
+	}
 
 	stuck := false
 	defer func() {
@@ -757,6 +824,7 @@ func runOnce(c C07Case) (v verdict) {
 		}
 		pids := f.launchedPids()
 		rt.Stop()
+		f.pressWG.Wait()
 		if f.ldir != "" {
 			// the runtime kills what is still in its list and what it dropped; whatever is left
 			// (nothing, on a correct tree) must not outlive the case
@@ -781,7 +849,19 @@ func runOnce(c C07Case) (v verdict) {
 				return
 			}
 			pl.proxy = px
-			err = pl.p.NewStub(rt.Socket, px.Dial)
+			dial := px.Dial
+			if pl.spec.Fault.Then == "stop" {
+				own := pl
+				dial = func(s string) (net.Conn, error) {
+					c, err := px.Dial(s)
+					if err != nil {
+						return nil, err
+					}
+					own.wc = &watchConn{Conn: c}
+					return own.wc, nil
+				}
+			}
+			err = pl.p.NewStub(rt.Socket, dial)
 			if err != nil {
 				v.overload = "cannot create stub: " + err.Error()
 				return
@@ -860,6 +940,9 @@ func runOnce(c C07Case) (v verdict) {
 		case "error":
 			v.classes = append(v.classes, errClass(ft), "error-form:"+errFormOf(ft))
 		}
+		if ft.Then != "" {
+			v.classes = append(v.classes, ft.Kind+"-then-"+ft.Then, fmt.Sprintf("then-ms:%d", ft.ThenMs))
+		}
 		if pl.spec.Big {
 			v.classes = append(v.classes, "faulty-big-response")
 		}
@@ -912,6 +995,43 @@ func runOnce(c C07Case) (v verdict) {
 				StreamSel: ft.StreamSel, Type: byte(ft.Type), Flags: byte(ft.Flags)})
 			pl.armed = true
 		}
+	}
+	// --- prologue: socket pressure from the plugin's own calls. The plugin issues unsolicited
+	// UpdateContainers requests and does not read the responses (its peer has just been armed to
+	// stop reading at the cut point): they pile up in the runtime->plugin direction of the
+	// connection, which requests to the plugin share.
+	for _, pl := range f.plugs {
+		ft := pl.spec.Fault
+		if pl.spec.Launched || ft.Kind != "cut" || ft.Dir != "r2p" || ft.PressCalls <= 0 {
+			continue
+		}
+		v.classes = append(v.classes, "pressure")
+		if ft.PressCalls*ft.PressKB >= 250 {
+			v.classes = append(v.classes, "pressure:fills-socket")
+		}
+		for i := 0; i < ft.PressCalls; i++ {
+			own := pl
+			f.pressWG.Add(1)
+			go func() {
+				defer f.pressWG.Done()
+				own.p.Stub.UpdateContainers([]*api.ContainerUpdate{{ContainerId: fmt.Sprintf("press-%d-%d", own.spec.Idx, own.spec.Fault.PressKB)}})
+			}()
+		}
+		deadline := time.Now().Add(10 * time.Second)
+		for {
+			f.mu.Lock()
+			n := f.upd[pl.spec.Idx]
+			f.mu.Unlock()
+			if n >= ft.PressCalls {
+				break
+			}
+			if time.Now().After(deadline) {
+				v.overload = fmt.Sprintf("only %d of %d unsolicited updates reached the runtime", n, ft.PressCalls)
+				return
+			}
+			time.Sleep(time.Millisecond)
+		}
+		time.Sleep(5 * time.Millisecond) // the responses are being written (as far as they fit)
 	}
 	if c.HookPoint != "" && verifhook.Enabled {
 		pt, d := c.HookPoint, time.Duration(c.HookSleepUs)*time.Microsecond
@@ -970,9 +1090,10 @@ func runOnce(c C07Case) (v verdict) {
 				// behind it are then invoked
 				afterVeto = fmt.Sprintf("clause 5: plugin %02d was invoked although plugin %02d before it had failed the request with an error (%s)", pl.spec.Idx, vetoer.spec.Idx, errClass(vetoer.spec.Fault))
 			}
-			if (ft.Kind == "close" && ft.When == "before") || ft.Kind == "dying" {
-				if ft.Kind == "dying" {
-					pl.proxy.CloseNow() // it dies now, the incomplete frame stays incomplete
+			firedEarly := ft.Kind == "cut" && pl.rep.Fired // stopped reading over the answers to its own calls
+			if (ft.Kind == "close" && ft.When == "before") || ft.Kind == "dying" || firedEarly {
+				if ft.Kind == "dying" || firedEarly {
+					pl.proxy.CloseNow() // it dies now (the incomplete frame stays incomplete)
 				}
 				struck = append(struck, pl) // its connection is gone although the request never got to it
 			} else {
@@ -985,8 +1106,29 @@ func runOnce(c C07Case) (v verdict) {
 		case "none":
 		case "error":
 			if invoked == 1 {
-				vetoer = pl
-				reached = false
+				_, want := handlerError(ft)
+				if ft.Then != "" && ft.ThenMs < leaveGraceMs && (res.err == nil || !strings.Contains(res.err.Error(), want)) {
+					// The plugin left (almost) the instant its error response was on the wire, and
+					// the runtime took it for a plugin that disconnected during the request: the
+					// response was still queued, unread, when the close arrived (pinned tree, under
+					// load: about 2 % of the runs with 0 ms; with 1 ms only when the reader is held
+					// up, e.g. by the widening hook between the two frames of a large response).
+					// It did disconnect during the request: the statement's first sentence covers
+					// that outcome, so it is accepted and counted, and the plugin is judged as a
+					// disconnected one. From 5 ms on the answer has to stand.
+					isStruck, isDuring = true, true
+					v.lenient = append(v.lenient, "answer-lost-plugin-left-at-once")
+				} else {
+					vetoer = pl
+					reached = false
+				}
+			}
+		case "leave":
+			if invoked == 1 && ft.ThenMs < leaveGraceMs {
+				// left (almost) the instant its answer was on the wire: its contribution may count
+				// (completely) or the plugin may be taken for one that disconnected (see above)
+				isStruck, isDuring = true, true
+				v.classes = append(v.classes, "left-at-once")
 			}
 		case "exit":
 			isStruck, isDuring = invoked == 1, invoked == 1
@@ -1013,7 +1155,7 @@ func runOnce(c C07Case) (v verdict) {
 				switch {
 				case ft.StallMs > 0:
 					v.classes = append(v.classes, "cut:r2p:stalled")
-					stallTotal += time.Duration(ft.StallMs) * time.Millisecond
+					stallTotal += stallCost(pl, f.t0.Add(mainStart))
 				case ft.StallMs < 0:
 					// never reads again, never closes: the runtime gives up after one timeout
 					v.classes = append(v.classes, "cut:r2p:stalled-for-good")
@@ -1080,11 +1222,7 @@ func runOnce(c C07Case) (v verdict) {
 			if ft := pl.spec.Fault; ft.Kind == "cut" && ft.Dir == "r2p" && pl.rep.Fired && ft.StallMs != 0 {
 				// a peer that stopped reading: never entered, its stall (one request timeout if
 				// it never closes) falls into the gap that began with the previous handler entry
-				d := time.Duration(ft.StallMs) * time.Millisecond
-				if ft.StallMs < 0 {
-					d = ReqTimeout
-				}
-				marks[len(marks)-1].stall += d
+				marks[len(marks)-1].stall += stallCost(pl, f.t0.Add(mainStart))
 			}
 			for _, e := range f.history() {
 				if e.Idx == pl.spec.Idx && e.Tag == mainTag {
@@ -1201,8 +1339,15 @@ func runOnce(c C07Case) (v verdict) {
 
 	// --- faults after the request
 	for _, pl := range f.plugs {
-		if ft := pl.spec.Fault; ft.Kind == "close" && ft.When == "after" && !isStruckPl(pl) {
-			pl.proxy.CloseNow()
+		ft := pl.spec.Fault
+		left := ft.Then != "" && !isStruckPl(pl) && f.count(pl.spec.Idx, mainTag) == 1 // answered, is leaving by itself
+		if left {
+			v.classes = append(v.classes, "left-after-answer")
+		}
+		if (ft.Kind == "close" && ft.When == "after" && !isStruckPl(pl)) || left {
+			if !left {
+				pl.proxy.CloseNow()
+			}
 			struck = append(struck, pl)
 			for i, s := range survivors {
 				if s == pl {
@@ -1348,6 +1493,25 @@ func partialFrame(k int) []byte {
 	return frame(2, body)[:k]
 }
 
+// stallCost: how long a peer that stopped reading can have held up the request. One request
+// timeout if it never closes; otherwise what was left of its stall when the request began (it
+// may have stopped reading earlier, over responses to its own calls).
+func stallCost(pl *plug, reqStart time.Time) time.Duration {
+	ft := pl.spec.Fault
+	if ft.StallMs < 0 {
+		return ReqTimeout
+	}
+	end := pl.rep.FiredAt.Add(time.Duration(ft.StallMs) * time.Millisecond)
+	from := pl.rep.FiredAt
+	if reqStart.After(from) {
+		from = reqStart
+	}
+	if d := end.Sub(from); d > 0 {
+		return d
+	}
+	return 0
+}
+
 func sizeName(k string) string {
 	if k == "" {
 		return "small"
@@ -1372,11 +1536,16 @@ func errFormOf(ft Fault) string {
 
 func describe(ft Fault) string {
 	switch ft.Kind {
+	case "leave":
+		return fmt.Sprintf("answers, then leaves (%s) %d ms later", ft.Then, ft.ThenMs)
 	case "exit":
 		return fmt.Sprintf("launched plugin exits inside the handler (status %d)", ft.K)
 	case "dying":
 		return fmt.Sprintf("died on the request's arrival with %d bytes of an own frame sent", ft.K)
 	case "cut":
+		if ft.PressCalls > 0 {
+			return fmt.Sprintf("issued %d unsolicited updates (%d KiB of failed updates each), stopped reading after %d bytes (stall %d ms)", ft.PressCalls, ft.PressKB, ft.K, ft.StallMs)
+		}
 		if ft.StallMs < 0 {
 			return fmt.Sprintf("stopped reading for good after %d bytes of the request", ft.K)
 		}
